@@ -38,16 +38,22 @@ fn observe<A: BEDLike + Clone, B: BEDLike + Clone>(xs: &[A], ys: &[B]) -> String
     // every second record is REBUILT IN PLACE through the setters from a record of the other flavour (its name buffer, if the
     // type keeps one, is overwritten): what was computed for the old content must not stick to the new one
     let mut rebuilt: Vec<A> = xs.to_vec();
+    let mut pre: std::collections::HashMap<(usize, usize), std::cmp::Ordering> = Default::default();
     if !ys.is_empty() {
         for i in (1..xs.len()).step_by(2) {
             let src = &xs[i];
             let z = &mut rebuilt[i - 1];
-            // first compare the old content (so that anything remembered about these two buffers is fresh), then overwrite it
-            let _ = z.compare(src); let _ = src.compare(z); let _ = z.overlap(src);
+            // (every other time) first compare the old content, so that anything remembered about these two buffers is fresh;
+            // then overwrite it, compare (now remembered for the NEW content), and put the old content back
+            if (src.start() ^ src.end() ^ i as u64) % 2 == 0 { let _ = z.compare(src); let _ = src.compare(z); let _ = z.overlap(src); }
             let old = xs[i - 1].to_genomic_range();
             z.set_chrom(src.chrom()).set_start(src.start()).set_end(src.end());
             let _ = z.compare(src); let _ = z.n_overlap(src);
             z.set_chrom(old.chrom()).set_start(old.start()).set_end(old.end());
+            // the very next question about these two records, asked before anything else is compared, is the one reported for
+            // this pair below
+            let first = z.compare(src);
+            pre.insert((i - 1, i), first);
         }
     }
     let xs: &[A] = &rebuilt;
@@ -66,7 +72,7 @@ fn observe<A: BEDLike + Clone, B: BEDLike + Clone>(xs: &[A], ys: &[B]) -> String
         for (j, b) in ys.iter().enumerate() {
             match a.overlap(b) { None => { w.n(0); } Some(g) => { w.n(1); put_gr(&mut w, &g); } }
             w.n(a.n_overlap(b));
-            w.s(ord(a.compare(&xs[j])));
+            w.s(ord(match pre.get(&(i, j)) { Some(o) => *o, None => a.compare(&xs[j]) }));
             w.s(ord(a.to_genomic_range().cmp(&xs[j].to_genomic_range())));
             let _ = i;
         }
